@@ -4,7 +4,7 @@
 (* that the 'nearest' algorithm (tree labels merged after every link) repairs every forest and that the named       *)
 (* deviation (labels not merged) does not.                                                                        *)
 EXTENDS Checkers, SequencesExt, Json, IOUtils
-CONSTANTS MaxN, FMaxN
+CONSTANTS MaxN, FMaxN, RingN
 Tables == UNION { AllTables(n) : n \in 1 .. MaxN }
 AcyclicF(Q) == \A a \in Nodes(Q) : \E r \in Roots(Q) : r \in Anc(Q, a)
 Forests == UNION { { Q \in AllTables(n) : AcyclicF(Q) /\ Cardinality(Roots(Q)) >= 2 } : n \in 2 .. FMaxN }
@@ -16,7 +16,12 @@ Placed == UNION { { [P |-> F, pos |-> p] : p \in Arr(Len(F)) } : F \in Forests }
 ASSUME \A c \in Placed : RepairWhy(c.P, NearestOf(c.P, DOf(c.pos))) = "" /\ RepairWhy(c.P, SomasOf(c.P)) = ""
 ASSUME \E c \in Placed : RepairWhy(c.P, NearestNoMerge(c.P, TopOf(c.P), DOf(c.pos), SecondaryRoots(c.P))) # ""
 Modes == {"off", "somas", "nearest"}
-CheckSeq  == SetToSeq({ [op |-> "check", P |-> P] : P \in Tables })
+\* long cycles in every row order: the ring 0 -> c[1] -> ... -> c[n-1] -> 0 for every arrangement c of the other rows, and the same ring with one more row hanging from it
+RingOf(c) == LET n == Len(c) + 1  cyc == <<0>> \o c IN [k \in 1 .. n |-> LET at == CHOOSE q \in 1 .. n : cyc[q] = k - 1 IN cyc[(at % n) + 1]]
+Arrs(n) == { c \in [1 .. n - 1 -> 1 .. n - 1] : \A a, b \in 1 .. n - 1 : c[a] = c[b] => a = b }
+Rings == UNION { { RingOf(c) : c \in Arrs(n) } : n \in RingN }
+Lassos == UNION { { Append(RingOf(c), h) : c \in Arrs(n), h \in {0, n - 1} } : n \in RingN }
+CheckSeq  == SetToSeq({ [op |-> "check", P |-> P] : P \in Tables \cup Rings \cup Lassos })
 RepairSeq == SetToSeq({ [op |-> "repair", mode |-> m] @@ c : c \in Placed, m \in Modes })
 AllSeq == CheckSeq \o RepairSeq
 Bases == <<0, 1, 7, 100>>
